@@ -185,6 +185,11 @@ pub fn erase_labels(dump: &str) -> String {
     out.join(" ")
 }
 
+/// Number of nodes in a `dump` answer.
+pub fn count_nodes(dump: &str) -> usize {
+    erase_labels(dump).split(' ').filter(|t| matches!(*t, "D" | "E" | "T" | "C" | "P" | "A" | "N")).count()
+}
+
 /// Total number of characters held by live text nodes.
 fn total_text(s: &Session) -> usize {
     s.live().iter().map(|&l| s.xot.text_str(s.nodes[l]).map(|t| t.chars().count()).unwrap_or(0)).sum()
@@ -270,8 +275,24 @@ fn step(s: &mut Session, sink: &mut Sink, op: &str, req: &str, x: usize, y: usiz
     if let Some(k) = crate::suite_fcreation::classify(s, req) {
         sink.stat(&format!("creation.{}", k));
     }
+    // node census for the calls that change a value in place: "no other node is created, lost …"
+    let census_op = matches!(op, "set_text" | "set_comment" | "set_pi_data" | "set_name" | "text_content_set" | "attr_set_value"
+        | "ns_set_ns" | "pi_set_target" | "text_push" | "value_mut_set" | "el_set_name");
+    let census_before = if census_op { count_nodes(&s.dump()) } else { 0 };
+    let childless_element = census_op && s.nodes.get(x).map_or(false, |&n| !s.xot.is_removed(n) && s.xot.is_element(n) && s.xot.first_child(n).is_none());
     let mark = sink.lines.len();
     let resp = exec_entry_checked(s, sink, req);
+    if census_op && resp != "panic" {
+        // text_content_mut of an element without children creates the (one) text child; nothing else
+        // creates or destroys a node, whatever the call answers (seed C05f)
+        let expected = census_before + if op == "text_content_set" && resp.starts_with("ok") && childless_element { 1 } else { 0 };
+        let after = count_nodes(&s.dump());
+        if after != expected {
+            sink.fail("C05", &format!("C05:{}-creates-or-loses-nodes", op), &format!("{} (answer {}): {} nodes before, {} after, expected {}", req, resp, census_before, after, expected), &s.history);
+        } else {
+            sink.stat("oracle.value-update-node-census");
+        }
+    }
     sink.stat(&format!("resp.{}", resp.split(' ').next().unwrap()));
     if resp == "panic" {
         return false;
